@@ -106,6 +106,18 @@ class Gen:
             opts.append((mem(var(s), f["n"]), f["t"]["n"], s))
         return r.choice(opts) if opts else None
 
+    def uint_lvalues(self, sc):
+        """modifiable lvalues of unsigned type: (expr, type name, base identifier)"""
+        out = [(var(n), t, n) for n, t in sc["ints"].items() if t in UINTS and n not in sc["ro"]]
+        for a, (t, ln) in sc["arrs"].items():
+            if t in UINTS:
+                out.append((idx(var(a), lit("int", self.r.randrange(ln))), t, a))
+        for sn, sid in sc["structs"].items():
+            for f in self.ifields(sid):
+                if f["t"]["n"] in UINTS:
+                    out.append((mem(var(sn), f["n"]), f["t"]["n"], sn))
+        return out
+
     # ---- statements ----
     def stmts(self, sc, n, depth, inloop=False):
         out = []
@@ -170,27 +182,39 @@ class Gen:
     def seqfx(self, sc):
         """side effects below a sequence point: a && (x op= e), c ? x++ : (y -= e), (x++, e): only the selected operand's effects happen"""
         r = self.r
-        us = [n for n, t in sc["ints"].items() if t in UINTS and n not in sc["ro"]]
-        if not us:
+        xs = self.uint_lvalues(sc)
+        if not xs:
             return []
-        x = r.choice(us)
+        xl, xt, x = r.choice(xs)
+        lvof = {}
+        for e_, t_, b_ in xs:
+            lvof.setdefault(b_, e_)
+        lvof[x] = xl
+        us = [b_ for b_ in lvof]
         def fx(v):
             k = r.random()
             if k < 0.5:
-                return incdec(var(v), dec=r.random() < 0.5, post=r.random() < 0.6)
+                return incdec(lvof[v], dec=r.random() < 0.5, post=r.random() < 0.6)
             op = r.choice(["+=", "-=", "^=", "|=", "=", "*=", "<<="])
-            return asg_e(op, var(v), lit("int", r.randrange(0, 8)) if op == "<<=" else self.lit_for(r.choice(UINTS), small=True))
-        # an operand that neither reads nor writes x (unsequenced accesses would be undefined)
+            return asg_e(op, lvof[v], lit("int", r.randrange(0, 8)) if op == "<<=" else self.lit_for(r.choice(UINTS), small=True))
+        # an operand that neither reads nor writes x's object (unsequenced accesses would be undefined)
         sub = self.scope(sc)
-        for d in ("ints",):
+        for d in ("ints", "arrs", "structs"):
             sub[d] = {n: t for n, t in sub[d].items() if n != x}
-        lv = self.int_lvalue(sub, exclude=(x,))
+        sub["ptrs"] = {}
+        ys = [n for n in us if n != x]
+        y = r.choice(ys) if ys else None
+        # the assigned lvalue is a third object: x and y are modified inside the expression (two unsequenced
+        # modifications of one object would be undefined)
+        sub2 = self.scope(sub)
+        for d in ("ints", "arrs", "structs"):
+            sub2[d] = {n: t for n, t in sub2[d].items() if n != y}
+        lv = self.int_lvalue(sub2, exclude=(x, y))
         form = r.random()
         if form < 0.35:
             e = sc_e(r.choice(["&&", "||"]), self.expr(sub, 2), fx(x))
         elif form < 0.7:
-            ys = [n for n in us if n != x]
-            b = fx(r.choice(ys)) if ys and r.random() < 0.7 else self.expr(sub, 2)
+            b = fx(y) if y and r.random() < 0.7 else self.expr(sub, 2)
             a = fx(x)
             if r.random() < 0.5:
                 a, b = b, a
@@ -198,11 +222,11 @@ class Gen:
         else:
             e = scomma_e(fx(x), self.expr(sc, 2))          # the right operand may read x: sequenced after the side effect
         out = []
-        if lv and lv[2] != x and r.random() < 0.8:
+        if lv and lv[2] not in (x, y) and r.random() < 0.8:
             out.append(s_asg(r.choice(["=", "=", "+=", "^="]) if lv[1] in UINTS else "=", lv[0], e))
         else:
             out.append(s_expr(e))
-        out.append(s_obs(var(x)))
+        out.append(s_obs(xl))
         return out
 
     def ptrwalk(self, sc):
@@ -424,17 +448,22 @@ class Gen:
             return [s_asg("=", l, self.expr(sc))]
         if c < 0.42:
             # value of a side-effecting expression: y = x++ / y = (x op= e) / y = --x, with x distinct from y, x unsigned
-            us = [n for n, t in sc["ints"].items() if t in UINTS and n not in sc["ro"]]
-            if len(us) >= 1:
-                x = r.choice(us)
-                lv = self.int_lvalue(sc, exclude=(x,))
-                if lv and lv[2] != x:
+            # (x: a variable, an array element or a struct member — bit-fields included: the value is that of the stored field)
+            xs = self.uint_lvalues(sc)
+            if xs:
+                xl, xt, xbase = r.choice(xs)
+                lv = self.int_lvalue(sc, exclude=(xbase,))
+                if lv and lv[2] != xbase:
                     k = r.random()
                     if k < 0.5:
-                        rhs = incdec(var(x), dec=r.random() < 0.5, post=r.random() < 0.6)
+                        rhs = incdec(xl, dec=r.random() < 0.5, post=r.random() < 0.5)
                     else:
-                        rhs = asg_e(r.choice(["+=", "-=", "^=", "|=", "="]), var(x), self.lit_for(r.choice(UINTS), small=True))
-                    return [s_asg("=", lv[0], rhs)]
+                        rhs = asg_e(r.choice(["+=", "-=", "^=", "|=", "="]), xl, self.lit_for(r.choice(UINTS), small=r.random() < 0.7))
+                    out = []
+                    if xl["k"] == "mem" and r.random() < 0.6:
+                        # put the field at a boundary first, so that the operation wraps in the field's width
+                        out.append(s_asg("=", xl, r.choice([lit("int", 0), un("~", lit("int", 0)), lit("int", 1)])))
+                    return out + [s_asg("=", lv[0], rhs), s_obs(xl)]
             return []
         if c < 0.47:
             return self.seqfx(sc)
@@ -571,6 +600,30 @@ class Gen:
                 out.append(d)
             out += [s_obs(idx(var(an), lit("int", j))) for j in range(k)]
             out += [s_asg("=", idx(var(an), lit("int", r.randrange(k))), self.lit_for("char")), s_obs(idx(var(an), lit("int", r.randrange(k))))]
+        return [s_block(out)]
+
+    def bfops(self, sc):
+        """value of ++/--/op= applied to a bit-field standing at a boundary of its width: the value of the expression is the
+        value the field holds afterwards (6.5.3.1p2, 6.5.16p3), not the unwrapped arithmetic result"""
+        r = self.r
+        cands = []
+        for sn, sid in sc["structs"].items():
+            for f in self.ifields(sid):
+                if f["bw"] and f["t"]["n"] in UINTS:
+                    cands.append((sn, f))
+        if not cands:
+            return []
+        out = []
+        yn = self.fresh("bv")
+        out.append(s_decl(yn, T("ullong"), i_e(lit("int", 0))))
+        for sn, f in r.sample(cands, min(len(cands), 3)):
+            l = mem(var(sn), f["n"])
+            for start, e in [(un("~", lit("int", 0)), incdec(l, dec=False, post=False)), (lit("int", 0), incdec(l, dec=True, post=False)),
+                             (un("~", lit("int", 0)), incdec(l, dec=False, post=True)), (lit("int", 0), incdec(l, dec=True, post=True)),
+                             (un("~", lit("int", 0)), asg_e("+=", l, lit("int", r.randrange(1, 9)))), (lit("int", 1), asg_e("-=", l, lit("int", r.randrange(2, 9)))),
+                             (lit("int", 3), asg_e("*=", l, self.lit_for("uint"))), (lit("int", 0), asg_e("=", l, self.lit_for(r.choice(UINTS))))]:
+                if r.random() < 0.75:
+                    out += [s_asg("=", l, start), s_asg("=", var(yn), e), s_obs(var(yn)), s_obs(l)]
         return [s_block(out)]
 
     def arrstruct(self, sc):
@@ -865,7 +918,7 @@ def vm_program(rng, charsigned):
 def agg_program(rng, charsigned):
     """a general program that is certain to contain nested members, arrays of structs, pointer walks and sequenced side effects"""
     g = Gen(rng)
-    g.force = ["nested", "arrstruct", "ptrwalk", "seqfx", "strings", "nested", "arrstruct", "seqfx", "strings"]
+    g.force = ["bfops", "nested", "arrstruct", "ptrwalk", "seqfx", "strings", "nested", "arrstruct", "seqfx", "strings", "bfops"]
     p = g.program(charsigned)
     return p
 
